@@ -20,7 +20,7 @@ PH_BASE = 0xE100          # one private-use code point per registered term
 OUT_OF_RANGE_HASH = 0x5EED5EED
 
 
-class Unsupported(Exception):
+class Unsupported(BaseException):
     """The engine met an operation it does not model: the path is then decided
     by its concrete replay only (never a false alarm)."""
 
@@ -68,10 +68,12 @@ class Ctx:
         self.stats = stats
         self.assumptions = []
         self.nonneg_cache = {}
+        self.pending = []
         self.inst_notes = None
 
     # ---- solver plumbing -------------------------------------------------
     def _check(self, *extra):
+        self._flush()
         t0 = time.perf_counter()
         r = self.solver.check(*extra)
         self.stats.solver_s += time.perf_counter() - t0
@@ -88,24 +90,35 @@ class Ctx:
         self.assumptions.append(cond)
 
     def branch(self, cond) -> bool:
-        cond = z3.simplify(cond)
+        """Decide a symbolic condition.  Conditions are cached by AST id (the ASTs
+        are kept alive: ids are recycled after GC) in positive form."""
+        neg = False
+        while z3.is_not(cond):
+            cond = cond.arg(0)
+            neg = not neg
+        k = cond.get_id()
+        d = self.known.get(k)
+        if d is None:
+            d = self._decide(cond, k)
+        return d != neg
+
+    def _decide(self, cond, k):
         if z3.is_true(cond):
             return True
         if z3.is_false(cond):
             return False
-        k = cond.get_id()
-        if k in self.known:
-            return self.known[k]
         i = len(self.trace)
         if i < len(self.prefix):
             d, alt = self.prefix[i]
+            if alt is not False:          # a real decision (taken or flipped); implied ones need no assertion
+                self.pending.append(cond if d else z3.Not(cond))
         else:
+            self._flush()
             r = self._check(cond)
             if r == z3.unknown:
                 raise SolverUnknown(str(cond))
             if r == z3.unsat:
                 d, alt = False, False
-                r2 = None
             else:
                 r2 = self._check(z3.Not(cond))
                 if r2 == z3.unknown:
@@ -113,16 +126,16 @@ class Ctx:
                 d, alt = True, r2 == z3.sat
             if alt:
                 self.stats.forks += 1
+                self.solver.add(cond if d else z3.Not(cond))
         self.trace.append((d, alt))
-        self.solver.add(cond if d else z3.Not(cond))
-        self._remember(cond, d)
+        self.keep.append(cond)
+        self.known[k] = d
         return d
 
-    def _remember(self, cond, d):
-        nc = z3.simplify(z3.Not(cond))
-        self.keep.append((cond, nc))          # ids are recycled after GC: keep alive
-        self.known[cond.get_id()] = d
-        self.known[nc.get_id()] = not d
+    def _flush(self):
+        if self.pending:
+            self.solver.add(*self.pending)
+            self.pending = []
 
     def concretize(self, t, W):
         for v in range(W):
@@ -336,7 +349,7 @@ class SymInt:
 
     def __ne__(self, o):
         x = _int_term(o)
-        return True if x is None else SymBool(self.t != x)
+        return True if x is None else SymBool(z3.Not(self.t == x))
 
     def __lt__(self, o):
         x = _int_term(o)
@@ -548,7 +561,7 @@ def next_prefix(trace):
         j -= 1
     if j < 0:
         return None
-    return trace[:j] + [(False, False)]
+    return trace[:j] + [(False, None)]       # None: flipped decision (closed)
 
 
 def run_concrete(body, values):
